@@ -82,7 +82,9 @@ pub fn char_index_to_position(content: &str, char_index: usize) -> Position {
         }
     }
 
-    let character = char_index - last_line_start;
+    // The LSP protocol measures columns in UTF-16 code units (we do not negotiate another
+    // position encoding), whereas char_index and last_line_start are byte offsets.
+    let character = content[last_line_start..char_index].encode_utf16().count();
 
     Position {
         line: line as u32,
